@@ -19,6 +19,14 @@ fn problems() -> Vec<Prob> {
     vec![base(Base::Riccati), warp(&base(Base::Logistic(2.0)), Warp::Sin), base(Base::Harmonic(1.3)), base(Base::Rational)]
 }
 
+fn gcd(a: usize, b: usize) -> usize {
+    if b == 0 {
+        a
+    } else {
+        gcd(b, a % b)
+    }
+}
+
 pub fn run_check(replay: Option<Value>) -> i32 {
     let mut rep = Report::new("C07", "model_checking");
     let forest = Forest::new(8);
@@ -184,42 +192,80 @@ pub fn run_check(replay: Option<Value>) -> i32 {
             }
         }
     }
-    // sol(t)/t_eval through solve_ivp are as trustworthy as the endpoints (both directions)
+    // sol(t) / sol_many / t_eval through solve_ivp are as trustworthy as the endpoints (both directions)
+    let sprobs: Vec<(Prob, f64)> = vec![(base(Base::Harmonic(1.3)), 3.0), (warp(&base(Base::Logistic(2.0)), Warp::Sin), 2.5), (warp(&base(Base::Harmonic(1.0)), Warp::Quad), 2.0)];
     for m in crate::run::M6 {
         for backward in [false, true] {
-            let p0 = base(Base::Harmonic(1.3));
-            let pr = if backward { reflect(&p0) } else { p0.clone() };
-            let xend = if backward { -3.0 } else { 3.0 };
-            let mut c = Cfg::new(m, 0.0, xend, &pr.y0).tol(1e-7, 1e-9);
-            c.dense = true;
-            c.user_jac = true;
-            if m == Method::RK4 {
-                c.first_step = Some(xend / 300.0);
-            }
-            let r = run(&pr, &c);
-            rep.evaluations += 1;
-            if let Some(s) = r.sol() {
-                let mut worst_end: f64 = 0.0;
-                for (t, y) in s.t.iter().zip(&s.y) {
-                    let ex = pr.exact(0.0, &pr.y0, *t).unwrap();
-                    worst_end = worst_end.max(y.iter().zip(&ex).fold(0.0f64, |a, (u, w)| a.max((u - w).abs())));
+            for (pi, (p0, span)) in sprobs.iter().enumerate() {
+                let pr = if backward { reflect(p0) } else { p0.clone() };
+                let xend = if backward { -*span } else { *span };
+                let mut c = Cfg::new(m, 0.0, xend, &pr.y0).tol(1e-7, 1e-9);
+                c.dense = true;
+                c.user_jac = true;
+                if m == Method::RK4 {
+                    c.first_step = Some(xend / 300.0);
                 }
-                let mut worst_in: f64 = 0.0;
+                let r = run(&pr, &c);
+                rep.evaluations += 1;
+                rep.transitions += r.st.n_ode;
+                let s = match r.sol() {
+                    Some(s) if s.status == Status::Success => s,
+                    _ => {
+                        rep.machinery_errors.push(format!("sol-vs-endpoints: {} on {} ended with {}", mname(m), pr.name, r.outcome_name()));
+                        continue;
+                    }
+                };
+                let errof = |t: f64, v: &[f64]| -> f64 {
+                    let ex = pr.exact(0.0, &pr.y0, t).unwrap();
+                    v.iter().zip(&ex).fold(0.0f64, |a, (u, w)| a.max((u - w).abs()))
+                };
+                let worst_end = s.t.iter().zip(&s.y).fold(0.0f64, |a, (t, y)| a.max(errof(*t, y)));
+                // interior times, in the order the integration meets them
+                let mut ts = vec![];
                 for k in 0..s.t.len() - 1 {
                     for th in [0.25, 0.5, 0.75] {
-                        let t = s.t[k] + th * (s.t[k + 1] - s.t[k]);
-                        if let Ok(v) = s.sol(t) {
-                            let ex = pr.exact(0.0, &pr.y0, t).unwrap();
-                            worst_in = worst_in.max(v.iter().zip(&ex).fold(0.0f64, |a, (u, w)| a.max((u - w).abs())));
-                        }
+                        ts.push(s.t[k] + th * (s.t[k + 1] - s.t[k]));
                     }
                 }
-                rep.validated += 1;
-                *rep.tags.entry("sol-vs-endpoints".into()).or_insert(0) += 1;
-                if worst_in > 20.0 * worst_end + 50.0 * 1e-7 {
-                    let key = format!("solinterior:{}:{}", mname(m), backward as u8);
-                    rep.violations.push(Violation::new(&key, "sol-interior", format!("{}{}: worst sol(t) error inside steps {:e} vs worst endpoint error {:e}", mname(m), if backward { " backward" } else { "" }, worst_in, worst_end), json!({"key": key})).with("method", mname(m)));
+                let bound = 20.0 * worst_end + 50.0 * 1e-7;
+                let report = |api: &str, worst: f64, rep: &mut Report| {
+                    rep.validated += 1;
+                    *rep.tags.entry("sol-vs-endpoints".into()).or_insert(0) += 1;
+                    if !(worst <= bound) {
+                        let key = format!("solinterior:{}:{}:{}:{}", mname(m), backward as u8, pi, api);
+                        rep.violations.push(
+                            Violation::new(&key, "sol-interior", format!("{}{} on {}: worst {} error inside steps {:e} vs worst endpoint error {:e}", mname(m), if backward { " backward" } else { "" }, pr.name, api, worst, worst_end), json!({"key": key}))
+                                .with("method", mname(m))
+                                .with("api", api),
+                        );
+                    }
+                };
+                // (1) sol(t), one by one
+                let w1 = ts.iter().fold(0.0f64, |a, t| a.max(s.sol(*t).map(|v| errof(*t, &v)).unwrap_or(f64::INFINITY)));
+                report("sol", w1, &mut rep);
+                // (2) sol_many: along the integration, against it, interleaved
+                let n_t = ts.len();
+                let stride = (0..).map(|k| 2 * k + 7).find(|q| gcd(*q, n_t) == 1).unwrap();
+                let orders: [(&str, Vec<usize>); 3] = [("sol_many(along)", (0..n_t).collect()), ("sol_many(against)", (0..n_t).rev().collect()), ("sol_many(interleaved)", (0..n_t).map(|i| (i * stride) % n_t).collect())];
+                for (name, ord) in &orders {
+                    let q: Vec<f64> = ord.iter().map(|&i| ts[i]).collect();
+                    let w = match s.sol_many(&q) {
+                        Ok(vs) => vs.iter().zip(&q).fold(0.0f64, |a, (v, t)| a.max(errof(*t, v))),
+                        Err(_) => f64::INFINITY,
+                    };
+                    report(name, w, &mut rep);
                 }
+                // (3) the same times requested through t_eval
+                let mut ct = c.clone();
+                ct.t_eval = Some(ts.clone());
+                ct.dense = false;
+                let rt = run(&pr, &ct);
+                rep.evaluations += 1;
+                let w3 = match rt.sol() {
+                    Some(st) if st.status == Status::Success && st.t.len() == ts.len() => st.t.iter().zip(&st.y).fold(0.0f64, |a, (t, y)| a.max(errof(*t, y))),
+                    _ => f64::INFINITY,
+                };
+                report("t_eval", w3, &mut rep);
             }
         }
     }
